@@ -116,7 +116,7 @@ def shell_model(draw, force=None, max_ports=6, collide=False):  # pylint: disabl
         sc = draw(st.sampled_from(scopes))
         nm = _uniq(draw, pool_for(['Info', 'Msg', 'T', 'Data', 'Value_t', 'Result']), names_in[sc])
         e = {'k': 'extern', 'name': [nm], 'value': f'::xt::T{i}'}
-        if 'ref_extern' in feats and i == 0:
+        if 'ref_extern' in feats and i in (0, 1):
             e['value'] = f'const ::xt::T{i}&'  # a reference-typed extern: only usable for in formals
         externs.append((sc, e))
         decls.append((sc, e))
